@@ -40,6 +40,7 @@ static bool run_fz(const FzCase &c, std::string &why) {
   int saved = -1; if (c.flags & 1) { fflush(stdout); saved = dup(1); int nul = open("/dev/null", O_WRONLY); if (nul >= 0) { dup2(nul, 1); close(nul); } }
   struct Restore { int fd; ~Restore() { if (fd >= 0) { fflush(stdout); dup2(fd, 1); close(fd); } } } restore{saved};
   std::vector<uint8_t> ext(c.n, 0x5a); ext.shrink_to_fit();
+  al::tight_code(c.internal);   // a library-managed buffer ends directly in front of an inaccessible page (fault-injectable build)
   static uint8_t dummy; assemblyline_t a = asm_create_instance(c.internal ? nullptr : (c.n ? ext.data() : &dummy), c.n);
   if (!a) { why = "create failed"; return false; }
   al::apply_opts(a, combo_opts(c.combo)); if (c.mode == 1) asm_set_chunk_size(a, c.chunk);
@@ -117,12 +118,14 @@ void prop_c09_grammar(hz::Ctx &ctx) {
   for (long long i = 0; i < total; i++) {
     std::string what; const std::string &base = P.lines[r.below(P.lines.size())];
     FzCase c; if (r.below(5) == 0) { c.text = base; if (r.coin()) c.text += "\n" + P.lines[r.below(P.lines.size())]; what = "unmutated "; } else if (r.below(12) == 0) c.text = edge_line(r, what); else c.text = mutate(base, r, what); c.combo = (int)r.below(12); c.mode = (int)r.below(3); static const int CH[] = {0, 1, 2, 3, 8, 16, 17, 4096}; c.chunk = CH[r.below(8)]; c.internal = r.below(4) == 0; c.n = NS[r.below(8)];
-    { int lim = c.internal ? 6000 : c.n; static const int BACK[] = {20, 21, 22, 23, 24, 25, 28, 32, 19, 0}; int bk = BACK[r.below(10)]; c.start = r.below(3) == 0 ? 0 : (lim >= bk ? lim - bk : 0); if (r.below(8) == 0) c.start = (int)r.below(lim + 1); }
+    { int lim = c.internal ? 6000 : c.n; static const int BACK[] = {20, 21, 22, 23, 24, 25, 28, 32, 19, 0}; int bk = BACK[r.below(10)]; c.start = r.below(3) == 0 ? 0 : (lim >= bk ? lim - bk : 0); if (r.below(8) == 0) c.start = (int)r.below(lim + 1);
+      // a library-managed buffer grows to wherever the offset is set: positions around the lengths it takes (6020 + 6000k, position + 20)
+      if (c.internal && r.below(3) == 0) { static const int FAR[] = {6001, 6019, 6020, 6021, 12000, 12001, 12010, 12015, 12019, 12020, 12021, 18005, 18019, 24017, 8192, 12288, 100000}; c.start = FAR[r.below(17)] + (r.below(4) == 0 ? (int)r.below(20) : 0); } }
     c.flags = (r.below(6) == 0 ? 1 : 0) | (r.below(5) == 0 ? 2 : 0) | (r.below(7) == 0 ? 4 : 0);
     if (!ctx.take()) continue;
     std::string id = serfz(c); if (!ctx.begin(id, hz::jesc(c.text).substr(0, 300))) continue;
     ctx.cls("part:grammar-mutation"); { size_t p = 0; while (p < what.size()) { size_t e = what.find(' ', p); ctx.cls("mut:" + what.substr(p, e - p)); p = e + 1; } }
-    if (c.text.size() >= 100) ctx.cls("len:>=100"); if (c.flags & 1) ctx.cls("debug-listing"); if (c.flags & 2) ctx.cls("second-call"); if (c.flags & 4) ctx.cls("deprecated-alias");
+    if (c.text.size() >= 100) ctx.cls("len:>=100"); if (c.internal && c.start > 6000) ctx.cls("offset:beyond-the-initial-length"); if (c.flags & 1) ctx.cls("debug-listing"); if (c.flags & 2) ctx.cls("second-call"); if (c.flags & 4) ctx.cls("deprecated-alias");
     // non-trivial: reaches the operand tokenizer (a mnemonic-like token followed by a blank and more text)
     size_t sp = c.text.find(' '); if (sp != std::string::npos && sp > 0 && sp + 1 < c.text.size()) ctx.nontrivial(c.text);
     std::string why; bool ok = run_fz(c, why);
